@@ -51,7 +51,89 @@ pub fn touch_everything(vt: &avt::Vt) -> usize {
     acc
 }
 
-pub fn judge(_part: &str, case: &Case, tally: &mut Tally) -> Verdict {
+/// Run one case in a child process (this binary in replay mode). A stack overflow or any
+/// other abort kills a process outright - no panic to catch - so cases built to provoke
+/// deep recursion or huge allocations are judged from outside: the child dying on a signal
+/// is the failure.
+fn judge_isolated(case: &Case, tally: &mut Tally) -> Verdict {
+    use std::os::unix::process::ExitStatusExt;
+    tally.steps += 1;
+    tally.nontrivial = true;
+    let dir = std::env::var("VERIF_DIR").map(std::path::PathBuf::from).unwrap_or_else(|_| std::path::PathBuf::from("/verif")).join("work").join("isolated");
+    let _ = std::fs::create_dir_all(&dir);
+    let path = dir.join(format!("C01-{:016x}-{}.json", case.key(), std::process::id()));
+    let replay = serde_json::json!({
+        "property": "C01", "part": "random-small", "case": case, "sig": "", "msg": "", "rendered": "", "seed": 0, "found_by": "isolated run",
+    });
+    if std::fs::write(&path, replay.to_string()).is_err() {
+        return Verdict::Invalid("cannot write the case for the isolated run".into());
+    }
+    let exe = match std::env::current_exe() {
+        Ok(e) => e,
+        Err(_) => return Verdict::Invalid("cannot find the running binary".into()),
+    };
+    let out = std::process::Command::new(exe).arg("C01").arg("quick").arg("--replay").arg(&path).env("VERIF_ISOLATED_CHILD", "1").output();
+    let _ = std::fs::remove_file(&path);
+    match out {
+        Err(e) => Verdict::Invalid(format!("cannot start the isolated run: {}", e)),
+        Ok(o) => {
+            if let Some(sig) = o.status.signal() {
+                let err = String::from_utf8_lossy(&o.stderr);
+                let line = err.lines().rev().find(|l| !l.trim().is_empty()).unwrap_or("").to_string();
+                return Verdict::fail("abort", format!("the process running this case alone was killed by signal {} ({})", sig, crate::case::clip(&line, 200)));
+            }
+            match o.status.code() {
+                Some(0) => Verdict::Pass,
+                Some(1) => {
+                    let so = String::from_utf8_lossy(&o.stdout);
+                    let line = so.lines().find(|l| l.starts_with("replay ")).unwrap_or("").to_string();
+                    Verdict::fail("isolated", format!("in an isolated run: {}", crate::case::clip(&line, 300)))
+                }
+                c => Verdict::Invalid(format!("isolated run inconclusive (exit {:?})", c)),
+            }
+        }
+    }
+}
+
+/// cases aimed at recursion depth and allocation size: very long chains of soft-wrapped
+/// rows merged into one row by a single widening (and the reverse), huge widths and heights
+fn isolated_cases() -> Vec<Case> {
+    let mut v = vec![];
+    let text = |n: usize| -> String { (0..n).map(|k| (b'a' + (k % 26) as u8) as char).collect() };
+    for (cols, k) in [(1usize, 3_000usize), (1, 40_000), (2, 20_000), (3, 100_000), (1, 150_000)] {
+        for limit in [None, Some(0)] {
+            // k characters wrap over k / cols rows; one resize makes them a single row
+            v.push(Case::new(cols, 2, limit).feed(text(k)).resize(k + 3, 2).feed("x\r\ny"));
+            // ... and back. (Narrowing one very wide row costs time quadratic in its width on
+            // the unchanged tree - Line::contract splits the remainder off again for every
+            // new row; 25 s for 80 000 columns -, so this direction stays at widths where
+            // that is far below the watchdog; see DESIGN section 9.)
+            let kn = k.min(8_000);
+            v.push(Case::new(kn + 3, 2, limit).feed(text(kn)).resize(cols, 2).resize(kn / 2, 3).feed("x"));
+            // character by character, dump and text in between
+            let mut c = Case::new(cols, 3, limit);
+            c.calls.push(Call::Feed(text(k.min(30_000))));
+            c.calls.push(Call::Dump);
+            c.calls.push(Call::Resize(k, 1));
+            c.calls.push(Call::Text);
+            c.calls.push(Call::Resize(k.min(8_000), 1));
+            c.calls.push(Call::Resize(1, 1));
+            v.push(c);
+        }
+    }
+    // tall and wide extremes
+    v.push(Case::new(2, 60_000, Some(100)).feed("\n".repeat(70_000)).resize(3, 60_000).resize(2_000, 20).feed("\x1b[65535S\x1b[65535T"));
+    v.push(Case::new(65_535, 1, Some(10)).feed("\x1b[65535b\x1b[65535@\x1b[65535P").resize(65_535, 3).feed("\x1b[65535L\x1b[65535M"));
+    for c in v.iter_mut() {
+        c.nums = vec![0, 1];
+    }
+    v
+}
+
+pub fn judge(part: &str, case: &Case, tally: &mut Tally) -> Verdict {
+    if part == "isolated-extremes" && std::env::var("VERIF_ISOLATED_CHILD").is_err() {
+        return judge_isolated(case, tally);
+    }
     let drain_mode = case.nums.first().copied().unwrap_or(0);
     let collector = case.nums.get(1).copied().unwrap_or(0) == 1;
     let mut vt = new_vt(case.cols, case.rows, case.limit);
@@ -276,6 +358,11 @@ pub fn run(env: &Env) -> PropRun {
     parts.push(random_part(env, "random-small", n, &gen_small, &j));
     parts.push(random_part(env, "random-any-size", n / 4, &gen_big, &j));
     parts.push(random_part(env, "garbage", n / 2, &gen_garbage, &j));
+    {
+        let iso = isolated_cases();
+        let ji = |c: &Case, t: &mut Tally| judge("isolated-extremes", c, t);
+        parts.push(run_part(env, "isolated-extremes", iso.len(), true, "chains of 3 000 - 150 000 soft-wrapped rows merged into one row by a single widening and split again, per-character feeding with dump/text in between, 60 000-row and 65 535-column screens; each case in a child process so that a stack overflow or abort is seen", &|i| iso.get(i).cloned(), &ji));
+    }
     parts.push(random_part(env, "many-calls", env.tier.scale(300, 20), &gen_many_calls, &j));
     parts.push(random_part(env, "volume", env.tier.scale(300, 20), &gen_volume, &j));
     PropRun {
